@@ -449,6 +449,18 @@ func (w *world) runJWT(tr *hx.Trace, g *gen, r *hx.Rng, seed uint64, idx int, wi
 						}
 					}
 
+					// ... and the credential holds no member that is neither in the signed claim object nor governed by a claim
+					for k := range got {
+						switch k {
+						case "issuer", "issuanceDate", "expirationDate", "id":
+							continue
+						}
+
+						if _, signed := src[k]; !signed {
+							fail("jwt-member-not-from-signed-payload", fmt.Sprintf("JWS credential (%s, %s): member %s = %s is not in the signed claim object", v.name, f.name, k, toJSON(got[k])))
+						}
+					}
+
 					if iss, _ := payload["iss"].(string); iss != "" {
 						gi := got["issuer"]
 						if im, ok := gi.(map[string]interface{}); ok {
@@ -641,6 +653,12 @@ func (w *world) runJWTPres(tr *hx.Trace, g *gen, s jwtSigner, cred map[string]in
 
 						if !sameJSON(got[k], want) {
 							fail("jwt-member-not-from-signed-payload", fmt.Sprintf("JWS presentation (%s): member %s is %s, the signed vp claim has %s", v.name, k, toJSON(got[k]), toJSON(want)))
+						}
+					}
+
+					for k := range got {
+						if _, signed := src[k]; !signed && k != "holder" && k != "id" {
+							fail("jwt-member-not-from-signed-payload", fmt.Sprintf("JWS presentation (%s): member %s = %s is not in the signed vp claim", v.name, k, toJSON(got[k])))
 						}
 					}
 				}
